@@ -28,6 +28,7 @@ type flowScn struct {
 	ReadBuf int    `json:"readbuf"`
 	Split   bool   `json:"split"`
 	Writer  string `json:"writer"` // how the client's ResponseWriter offers flushing: "", "mw", "errflusher", "unwrap"
+	Method  string `json:"method"` // Bidi | CStream (one reply, sent after the first request message; the client sends the rest after seeing it)
 	Carry   bool   `json:"carry"`  // each handler Write of reply k also carries the first 3 bytes of reply k+1's envelope
 }
 
@@ -155,6 +156,10 @@ func init() {
 		if err := json.Unmarshal(raw, &fs); err != nil {
 			panic(err)
 		}
+		if fs.Method == "" {
+			fs.Method = "Bidi"
+		}
+		cstream := fs.Method == "CStream"
 		obs := flowObs{SID: fs.SID, Ev: "flow", Scn: fs}
 		comps := []string{}
 		if fs.TComp != "" {
@@ -162,16 +167,18 @@ func init() {
 		}
 		scn := &scenario{SID: fs.SID, Fam: "flow",
 			Cfg: cfgSpec{Protos: []string{fs.Target}, Codecs: []string{fs.TCodec}, Comps: comps},
-			Cl:  clientSpec{Form: fs.Form, Method: "Bidi", Codec: fs.Codec, Comp: fs.Comp, Major: 2},
+			Cl:  clientSpec{Form: fs.Form, Method: fs.Method, Codec: fs.Codec, Comp: fs.Comp, Major: 2},
 			Hd:  handlerSpec{Comp: fs.HdComp, End: endSpec{How: "normal"}}}
 		if fs.Comp != "" {
 			scn.Cl.Accept = []string{fs.Comp}
 		}
 		for k := 1; k <= fs.Rounds; k++ {
 			scn.Cl.Frames = append(scn.Cl.Frames, frameSpec{M: k, Z: fs.Comp != "" && k%2 == 1})
-			scn.Hd.Frames = append(scn.Hd.Frames, frameSpec{M: fs.Rounds + k, Z: fs.HdComp != "" && k%2 == 0})
+			if !cstream || k == 1 {
+				scn.Hd.Frames = append(scn.Hd.Frames, frameSpec{M: fs.Rounds + k, Z: fs.HdComp != "" && k%2 == 0})
+			}
 		}
-		scn.Hd.ErrAt = fs.Rounds
+		scn.Hd.ErrAt = len(scn.Hd.Frames)
 		rn := newRun(scn, seed)
 		reqOK, respOK := true, true
 		var bform atomic.Value
@@ -244,6 +251,9 @@ func init() {
 				if id := rn.identifyPayload(codec, enc, f.Flags&1 != 0, rn.reqDesc, payload, k); id != k {
 					reqOK = false
 				}
+				if cstream && k > 1 {
+					continue // the one reply has been sent
+				}
 				out := rn.respFrame(scn.Hd.Frames[k-1], codec, fs.HdComp, 0)
 				if fs.Carry {
 					// (a relay copying through a fixed buffer: message boundaries and Write boundaries do not coincide)
@@ -299,7 +309,7 @@ func init() {
 				hdr.Set("Grpc-Accept-Encoding", fs.Comp)
 			}
 		}
-		u := &url.URL{Path: svcPrefix + "Bidi"}
+		u := &url.URL{Path: svcPrefix + fs.Method}
 		req := &http.Request{Method: http.MethodPost, URL: u, Header: hdr, Proto: "HTTP/2.0", ProtoMajor: 2, Host: "verif.test",
 			Body: pr, ContentLength: -1, RequestURI: u.Path}
 		var done atomic.Bool
@@ -319,6 +329,10 @@ func init() {
 				if _, err := pw.Write(envelope(flags, p)); err != nil {
 					stuckAt.Store(fmt.Sprintf("client: write %d: %v", k, err))
 					return
+				}
+				if cstream && k > 1 {
+					obs.Completed = k
+					continue
 				}
 				if !vw.waitFrames(k, deadline) {
 					if time.Now().After(deadline) {
@@ -374,6 +388,9 @@ func init() {
 		obs.EndCode = co.End.Code
 		obs.Flushes = len(vw.recWriter.flushes)
 		want := fs.Rounds
+		if cstream {
+			want = 1
+		}
 		seen := 0
 		for _, f := range co.Frames {
 			if f.ID == -4 {
